@@ -7,6 +7,16 @@ NOTES = ("All checks: bin/check <id>. Each run regenerates coq/Gen from /repo, r
          "Known findings: KNOWN_FINDINGS.txt.")
 NOT_APPLICABLE = {}
 CLAIMED = {
+    "C11": {
+        "text": "Theorems for the logic that does not need a semantics of Go: with pairwise distinct keys the flattening dispatcher sends a target's key to that target "
+                "and to nothing else; lowering a block's phi nodes to sequential assignments equals the parallel SSA semantics when no phi reads an earlier phi's "
+                "target, and is refuted for a swap (known finding F6); every operator admissible for a trash-block guard evaluates to false. Tied by a differential "
+                "catalogue of 15 //garble:controlflow functions (loops, branches, switch, range, defer/recover with traced side effects, closures, multiple/named "
+                "results, generics, methods, labels; max junk/splits, hardening) under several parameter sets and seeds against the regular build; a build error "
+                "counts as rejected. Partial: the CFG passes and ssa2ast's instruction templates are exercised, not proved.",
+        "note": "Trusted: Coq kernel; the differential catalogue samples functions, parameters and seeds. No axioms.",
+        "technique": "Coq proof of dispatcher/phi-lowering/trash-guard logic + differential execution of a control-flow function catalogue",
+    },
     "C03": {
         "text": "Theorems: emission in sorted key order is independent of the map iteration order (for every permutation); the obfuscator's PRNG seed is a function of "
                 "the first eight bytes of the seed/action id; and an obligation over the site inventory regenerated from the type-checked garble packages on every "
